@@ -22,7 +22,7 @@ MANIFEST_INFO = {
     "engine": "C",
     "design_ref": "DESIGN.md section 5, C13",
     "technique": "stateless preemption-bounded exhaustive exploration of the real ConcurrentTestSuite / ConcurrentStreamTestSuite with testtools.testsuite's threading and Queue replaced by scheduler shims; injected faults (caller's result raising, make_tests iterator failing, KeyboardInterrupt at queue.get); per-worker sequential reference runs as differential oracle; deadlock detection",
-    "level_text": "1-3 workers each reporting 0-2 tests (incl. workers whose run() raises before/after reporting - an Exception or SystemExit -, TestSuite-like unhashable/equal sub-suites, a stream-native worker replaying events with timestamp=None, stream-native workers whose events carry their own route code, a worker emitting 300 events against bounded queues, an aborted run followed by a second run of the same suite object) are run by the real suites under every schedule with <= 2 preemptions (quick; 3 thorough) and <= 1 fault. Every execution is checked: each sub-suite entered once in its own thread, run() returns only after all workers finished, every worker event delivered exactly once and in order (compared with a sequential reference run of the same worker), contiguous per-test blocks, broken-runner reporting, stop-all + propagation on abort, no deadlock.",
+    "level_text": "1-3 workers each reporting 0-2 tests (incl. workers whose run() raises before/after reporting - an Exception or SystemExit -, TestSuite-like unhashable/equal sub-suites, a stream-native worker replaying events with timestamp=None, stream-native workers whose events carry their own route code, a worker emitting 300 events against bounded queues, a worker whose route code is the empty string, one sub-suite object handed out twice, an aborted run followed by a second run of the same suite object) are run by the real suites under every schedule with <= 2 preemptions (quick; 3 thorough) and <= 1 fault. Every execution is checked: each sub-suite entered once in its own thread, run() returns only after all workers finished, every worker event delivered exactly once and in order (compared with a sequential reference run of the same worker), contiguous per-test blocks, broken-runner reporting, stop-all + propagation on abort, no deadlock.",
     "level_note": "Scheduling points at semaphore/queue/thread operations and at calls on the caller's result; worker-local objects (ExtendedToStreamDecorator, StreamToQueue, forwarders) are owned by one thread. Wall-clock timestamps are only required to be present.",
 }
 
